@@ -709,6 +709,17 @@ def apply_as_grid_ufunc(
                     f"{arg}"
                 )
 
+            # data with a second dimension of the same axis have no defined answer
+            # (padding refuses them as well, but is not reached when nothing needs padding)
+            other_ax_dims = [
+                d for d in grid.axes[n].coords.values() if d != ax_pos and d in arg.dims
+            ]
+            if other_ax_dims:
+                raise ValueError(
+                    f"Input argument {i} has more than one dimension along axis {n}: "
+                    f"{[ax_pos] + other_ax_dims}"
+                )
+
             # TODO also check that dims are the right length for their stated Axis positions on inputs?
 
     # Determine core dimensions for apply_ufunc
